@@ -186,3 +186,86 @@ def gen_sim_cases(rng, n):
 
 
 py_checks.GENS["simdispatch"] = gen_sim_cases
+
+
+# ---------------------------------------------------------------------------------------------
+# the logger: queueing, synchronous delivery, flushing (group "logger")
+# ---------------------------------------------------------------------------------------------
+from pams.logs.base import (ExpirationLog, Logger, MarketStepBeginLog, MarketStepEndLog, SessionBeginLog,  # noqa: E402
+                            SessionEndLog, SimulationBeginLog, SimulationEndLog)
+
+PROCESS = ["process_order_log", "process_cancel_log", "process_expiration_log", "process_execution_log",
+           "process_simulation_begin_log", "process_simulation_end_log", "process_session_begin_log",
+           "process_session_end_log", "process_market_step_begin_log", "process_market_step_end_log"]
+FIELDS.update({Logger: ["pending_logs"], ExpirationLog: ["order_id", "market_id", "time"],
+               SimulationBeginLog: [], SimulationEndLog: [], SessionBeginLog: [], SessionEndLog: [],
+               MarketStepBeginLog: [], MarketStepEndLog: []})
+for _c in ("ExpirationLog", "SimulationBeginLog", "SimulationEndLog", "SessionBeginLog", "SessionEndLog",
+           "MarketStepBeginLog", "MarketStepEndLog", "OrderLog", "CancelLog", "ExecutionLog"):
+    if _c not in py_checks.CLASS_GLOBALS:
+        py_checks.CLASS_GLOBALS.append(_c)
+
+
+class _Other:
+    """not a record: `process` refuses it"""
+
+
+def _records(rng, sim, ses, mk, n):
+    out = []
+    for _ in range(n):
+        k = rng.randrange(10)
+        if k == 0:
+            out.append(OrderLog(order_id=1, market_id=0, time=1, agent_id=0, is_buy=True, kind=LIMIT_ORDER, volume=1, price=300.0, ttl=None))
+        elif k == 1:
+            out.append(CancelLog(order_id=1, market_id=0, cancel_time=2, order_time=0, agent_id=0, is_buy=True,
+                                 kind=LIMIT_ORDER, volume=1, price=300.0, ttl=None))
+        elif k == 2:
+            out.append(ExpirationLog(order_id=1, market_id=0, time=2, order_time=0, agent_id=0, is_buy=True,
+                                     kind=LIMIT_ORDER, volume=1, price=300.0, ttl=1))
+        elif k == 3:
+            out.append(ExecutionLog(market_id=0, time=1, buy_agent_id=0, sell_agent_id=1, buy_order_id=1, sell_order_id=2,
+                                    price=300.0, volume=1))
+        elif k == 4:
+            out.append(SimulationBeginLog(simulator=sim))
+        elif k == 5:
+            out.append(SimulationEndLog(simulator=sim))
+        elif k == 6:
+            out.append(SessionBeginLog(session=ses, simulator=sim))
+        elif k == 7:
+            out.append(SessionEndLog(session=ses, simulator=sim))
+        elif k == 8:
+            out.append(MarketStepBeginLog(session=ses, market=mk, simulator=sim))
+        else:
+            out.append(MarketStepEndLog(session=ses, market=mk, simulator=sim))
+    return out
+
+
+def gen_logger_cases(rng, n):
+    sim, sessions, markets, events, t = _world(rng)
+    for i in range(n):
+        lg = Logger()
+        lg.pending_logs = _records(rng, sim, sessions[0], markets[0], rng.choice([0, 1, 2, 5]))
+        new = _records(rng, sim, sessions[0], markets[0], rng.choice([1, 2, 3]))
+        if rng.random() < 0.06:
+            (lg.pending_logs if rng.random() < 0.5 else new).append(_Other())
+        patch = [(lg, p) for p in PROCESS]
+        world = [lg] + lg.pending_logs + new
+        k = i % 7
+        if k == 0:
+            yield SimCase("Logger.write", lg.write, [lg, new[0]], patch, world)
+        elif k == 1:
+            yield SimCase("Logger.bulk_write", lg.bulk_write, [lg, new], patch, world)
+        elif k == 2:
+            yield SimCase("Logger.write_and_direct_process", lg.write_and_direct_process, [lg, new[0]], patch, world)
+        elif k == 3:
+            yield SimCase("Logger.bulk_write_and_direct_process", lg.bulk_write_and_direct_process, [lg, new], patch, world)
+        elif k == 4:
+            yield SimCase("Logger._process", lg._process, [lg], patch, world)
+        elif k == 5 and not isinstance(new[0], _Other):
+            yield SimCase("Log.read_and_write", new[0].read_and_write, [new[0], lg], patch, world)
+        elif not isinstance(new[0], _Other):
+            yield SimCase("Log.read_and_write_with_direct_process", new[0].read_and_write_with_direct_process,
+                          [new[0], lg], patch, world)
+
+
+py_checks.GENS["logger"] = gen_logger_cases
